@@ -93,11 +93,14 @@ def gen_compose(rng):
                 text_lines.append(f'%import("{p[1]}")'); ref += p[2]
             else:
                 text_lines.append(f'%include("{p[1]}")')
-                try:
-                    b, _ = A.assemble(p[2])
-                    ref.append(("raw", b))
-                except A.Faults:
-                    ref.append(("bad",))
+                if any(x[0] == "bad" for x in p[2]):
+                    ref.append(("bad",))       # something below does not assemble: no reference bytes for this tree
+                else:
+                    try:
+                        b, _ = A.assemble(p[2])
+                        ref.append(("raw", b))
+                    except A.Faults:
+                        ref.append(("bad",))
         return "\n".join(text_lines) + "\n", ref
     def rename(seg, suffix):
         out = []
